@@ -72,3 +72,62 @@ fn k_fiin_entry_read_utf8_name() {
     }
     kani::cover!(true, "reachable");
 }
+
+//@use_common
+
+fn fiin_entry(i: usize, name: &str) -> FIINEntry {
+    let mut dg = vec![0u8; 20];
+    for (k, b) in dg.iter_mut().enumerate() { *b = (i * 31 + k * 7 + 1) as u8; }
+    FIINEntry { file_size: (i as i32) * 1_000_003 + 5, file_name: name.to_string(), sha1: dg }
+}
+
+//@unit props=C10 label=B tier=quick native=1 fn=fiin::FileInfo::{write_to_buffer,from_existing} bound="by execution: tables of 0..6 entries; names of 1, 5, 31, 62 and 63 bytes, ASCII and multi-byte UTF-8 (2-, 3- and 4-byte characters)"
+//@desc a written table is magic + 16 zero bytes + 1024 + 96*n + 992 zero bytes + n records of 96 bytes (size LE at 0, name at 8 zero-padded to 64, digest at 72 padded to 24) and parses back to the same names, sizes and digests
+#[test]
+fn native_fiin_roundtrip() {
+    let names: Vec<String> = vec!["a".into(), "a.dat".into(), "é.d".into(), "日本語.win32.index".into(), "x".repeat(31), "y".repeat(62), "z".repeat(63),
+                                  format!("{}é", "q".repeat(61)), format!("𝄞{}", "k".repeat(59))];
+    let mut cases = 0u64;
+    for n in 0..=6usize {
+        for shift in 0..names.len() {
+            let entries: Vec<FIINEntry> = (0..n).map(|i| fiin_entry(i, &names[(i + shift) % names.len()])).collect();
+            let want: Vec<(i32, String, Vec<u8>)> = entries.iter().map(|e| (e.file_size, e.file_name.clone(), e.sha1.clone())).collect();
+            let buf = FileInfo { entries }.write_to_buffer().expect("write");
+            assert_eq!(buf.len(), 8 + 16 + 4 + 4 + 992 + 96 * n, "file length for {n} entries");
+            assert_eq!(&buf[..8], b"FileInfo");
+            assert!(buf[8..24].iter().all(|b| *b == 0) && buf[32..1024].iter().all(|b| *b == 0), "padding is zero");
+            assert_eq!(i32::from_le_bytes(buf[24..28].try_into().unwrap()), 1024);
+            assert_eq!(i32::from_le_bytes(buf[28..32].try_into().unwrap()), 96 * n as i32, "entries_size");
+            for (i, (size, name, dg)) in want.iter().enumerate() {
+                let r = &buf[1024 + 96 * i..1024 + 96 * (i + 1)];
+                assert_eq!(i32::from_le_bytes(r[0..4].try_into().unwrap()), *size, "size of entry {i}");
+                assert!(r[4..8].iter().all(|b| *b == 0));
+                assert_eq!(&r[8..8 + name.len()], name.as_bytes(), "name bytes of entry {i}");
+                assert!(r[8 + name.len()..72].iter().all(|b| *b == 0), "name padding of entry {i}");
+                assert_eq!(&r[72..92], &dg[..], "digest of entry {i}");
+                assert!(r[92..96].iter().all(|b| *b == 0), "digest padding of entry {i}");
+            }
+            let back = FileInfo::from_existing(&buf).expect("a written table parses");
+            assert_eq!(back.entries.len(), n);
+            for (i, (size, name, dg)) in want.iter().enumerate() {
+                assert_eq!(back.entries[i].file_size, *size);
+                assert_eq!(&back.entries[i].file_name, name, "name of entry {i} read back");
+                assert_eq!(&back.entries[i].sha1[..20], &dg[..], "digest of entry {i} read back");
+            }
+            cases += 1;
+        }
+    }
+    println!("NATIVE native_fiin_roundtrip cases={cases}");
+}
+
+//@unit props=C17 label=B tier=quick native=1 fn=fiin::FileInfo::from_existing bound="by execution: every truncation and 7 single-byte corruptions per byte of resources/tests/test.fiin and of a written 3-entry table with a multi-byte name"
+//@desc damaged file-info tables (truncated anywhere, any single byte damaged incl. invalid UTF-8 in a name, wrong sizes) yield None or a value, never a panic
+#[test]
+fn native_fiin_damaged_nopanic() {
+    let mut cases = 0u64;
+    let f = |b: &[u8]| { let _ = FileInfo::from_existing(b); };
+    cases += native_sweep(&native_resource("test.fiin"), 4096, 1, &f);
+    let made = FileInfo { entries: vec![fiin_entry(0, "a.dat"), fiin_entry(1, "日本語.win32.index"), fiin_entry(2, &"z".repeat(63))] }.write_to_buffer().unwrap();
+    cases += native_sweep(&made, 4096, 1, &f);
+    println!("NATIVE native_fiin_damaged_nopanic cases={cases}");
+}
